@@ -1,7 +1,70 @@
 (* Handlers for the further models are registered here (one section per model). *)
 open Uvmodel
 
-let register (_h : (string, string list -> string) Hashtbl.t)
-    (_z_of_int : int -> z) (_int_of_z : z -> int)
-    (_nat_of_int : int -> nat) (_int_of_nat : nat -> int)
-    (_ints_of_csv : string -> z list) (_csv_of_ints : z list -> string) : unit = ()
+let hexval c =
+  match c with
+  | '0'..'9' -> Char.code c - 48
+  | 'a'..'f' -> Char.code c - 87
+  | 'A'..'F' -> Char.code c - 55
+  | _ -> failwith "hex"
+
+let register (h : (string, string list -> string) Hashtbl.t)
+    (z_of_int : int -> z) (int_of_z : z -> int)
+    (nat_of_int : int -> nat) (int_of_nat : nat -> int)
+    (ints_of_csv : string -> z list) (csv_of_ints : z list -> string) : unit =
+  let bytes_of_hex (s : string) : z list =
+    if s = "-" then [] else
+    let n = String.length s / 2 in
+    let rec go i acc = if i < 0 then acc else go (i - 1) (z_of_int (hexval s.[2*i] * 16 + hexval s.[2*i+1]) :: acc) in
+    go (n - 1) [] in
+  let hex_of_bytes (l : z list) : string =
+    if l = [] then "-" else String.concat "" (List.map (fun z -> Printf.sprintf "%02x" ((int_of_z z) land 255)) l) in
+  (* ---------------- Model E: FsProto ----------------
+     fsproto <mode bits: in_place to_file no_backup if_changed do_check keep_mtime> <orig hex> <fmt hex|FAIL>
+             <backup hex|none> <md5-of hex|none> <out hex|none> <tmp hex|none> <plan: k:fail;k:full=j;k:crash;k:crashw=j | none> *)
+  let content_str = function
+    | Data b -> "D:" ^ hex_of_bytes b
+    | Digest b -> "G:" ^ hex_of_bytes b
+    | DigestPrefix (b, j) -> "P" ^ string_of_int (int_of_nat j) ^ ":" ^ hex_of_bytes b in
+  let fstate_str = function
+    | Absent -> "A"
+    | Closed c -> "C:" ^ content_str c
+    | Writing (c, e) -> "W:" ^ content_str c ^ (if e then ":err" else ":ok") in
+  let opk_str = function
+    | KStat -> "stat" | KFopenR -> "fopen-r" | KFopenW -> "fopen-w" | KFread -> "fread" | KFclose -> "fclose"
+    | KWrite -> "write" | KRename -> "rename" | KUnlink -> "unlink" | KOpen -> "open" | KRead -> "read"
+    | KClose -> "close" | KUtime -> "utime" in
+  let role_str = function RIn -> "in" | ROut -> "out" | RTmp -> "tmp" | RBackup -> "backup" | RMd5 -> "md5" in
+  Hashtbl.replace h "fsproto" (fun args ->
+    match args with
+    | [bits; orig; fmt; backup; md5; outf; tmpf; plan_s] ->
+      let b i = bits.[i] = '1' in
+      let md = { in_place = b 0; to_file = b 1; no_backup = b 2; if_changed = b 3; do_check = b 4; keep_mtime = b 5 } in
+      let orig_b = bytes_of_hex orig in
+      let fmt_f = (fun _ -> if fmt = "FAIL" then None else Some (bytes_of_hex fmt)) in
+      let file s mk = if s = "none" then Absent else Closed (mk (bytes_of_hex s)) in
+      let d0 = (fun r -> match r with
+        | RIn -> if orig = "none" then Absent else Closed (Data orig_b)
+        | RBackup -> file backup (fun x -> Data x)
+        | RMd5 -> file md5 (fun x -> Digest x)
+        | ROut -> file outf (fun x -> Data x)
+        | RTmp -> file tmpf (fun x -> Data x)) in
+      let faults = ref [] and crash = ref None in
+      if plan_s <> "none" then
+        List.iter (fun item ->
+          match String.split_on_char ':' item with
+          | [k; "fail"] -> faults := (int_of_string k, FFail) :: !faults
+          | [k; "crash"] -> crash := Some (nat_of_int (int_of_string k), None)
+          | [k; a] when String.length a > 5 && String.sub a 0 5 = "full=" ->
+            faults := (int_of_string k, FFull (nat_of_int (int_of_string (String.sub a 5 (String.length a - 5))))) :: !faults
+          | [k; a] when String.length a > 7 && String.sub a 0 7 = "crashw=" ->
+            crash := Some (nat_of_int (int_of_string k), Some (nat_of_int (int_of_string (String.sub a 7 (String.length a - 7)))))
+          | _ -> failwith "plan") (String.split_on_char ';' plan_s);
+      let pl = { faults = (fun n -> List.assoc_opt (int_of_nat n) !faults); crash = !crash } in
+      let r = run pl md fmt_f d0 in
+      let ex = match r.r_exit with None -> "K" | Some z -> string_of_int (int_of_z z) in
+      let tr = String.concat ";" (List.map (fun e -> Printf.sprintf "%s %s %s" (opk_str e.e_op) (role_str e.e_role) (if e.e_ok then "ok" else "ERR")) r.r_trace) in
+      let dsk = String.concat " " (List.map (fun ro -> role_str ro ^ "=" ^ fstate_str (r.r_disk ro)) [RIn; ROut; RTmp; RBackup; RMd5]) in
+      let so = match r.r_out with None -> "none" | Some o -> hex_of_bytes o.stdout in
+      Printf.sprintf "exit=%s ops=%d stdout=%s | %s | %s" ex (int_of_nat r.r_ops) so dsk tr
+    | _ -> failwith "fsproto args")
